@@ -272,6 +272,12 @@ def check(ctx):
     ctx.need(bool(sv_nodes) and bool(dec), "load_tree no longer decodes and stores: vanished anchor")
     Field = model.cls("Field")
     for svn in sv_nodes:
+        # a call reached only for members that are not Fields (sub-configurations) has nothing to decode
+        ftl = an.ft(lt)
+        if any((not tr) and isinstance(t.ast, ast.Call) and isinstance(t.ast.func, ast.Name) and t.ast.func.id == "isinstance"
+               and "Field" in (ftl.class_spec(t.ast.args[1], {}) or []) for t, tr in dominating_guards(an, lt, svn)):
+            ctx.ob("load.decode-before-store", lt, svn.ast, True, "reached only for non-Field members (nothing to decode)", node=svn, nontrivial=False)
+            continue
         bad = None
         for t in g.nodes:
             if t.kind == "test" and "Field" in (an.ft(lt).class_spec(t.ast.args[1], {}) or [] if isinstance(t.ast, ast.Call) and
